@@ -2,6 +2,11 @@
 
 package gpbft
 
+import (
+	"math"
+	"time"
+)
+
 // Accessors injected at build time (go build -overlay) by /verif; never committed to /repo.
 
 func VerifDivCeil(a, b int64) int64          { return divCeil(a, b) }
@@ -32,3 +37,16 @@ func (v *VerifQuorum) Support(key ECChainKey) (int64, bool) {
 func (v *VerifQuorum) FindStrongQuorumFor(key ECChainKey) (QuorumResult, bool) {
 	return v.q.FindStrongQuorumFor(key)
 }
+
+// timing configuration as the instance computes it
+func (p *Participant) VerifPhaseTimeout(round uint64, quality bool) int64 {
+	multi := 1.0
+	if quality {
+		multi = p.qualityDeltaMulti
+	}
+	delta := time.Duration(float64(p.delta) * multi * math.Pow(p.deltaBackOffExponent, float64(round)))
+	return int64(2 * delta)
+}
+func (p *Participant) VerifRebroadcastAfter(attempt int) int64 { return int64(p.rebroadcastAfter(attempt)) }
+func (p *Participant) VerifMaxLookahead() uint64               { return p.maxLookaheadRounds }
+func (p *Participant) VerifRebroadcastImmediatelyAfter() uint64 { return p.rebroadcastImmediatelyAfterRound }
